@@ -12,12 +12,12 @@ CHECKS = {
    "DESIGN.md §3 C10"),
  "C11": ("model_checking",
    "the C10 deviation-bounded embedder exploration with a status-contract oracle evaluated at every run_n_steps return",
-   "At every run_n_steps return of every explored execution: steps_consumed <= budget; for task-free programs the consumed steps sum to the default run's instruction count; completion or a runtime error is reported when main ends and persists on further calls, an error is never reported as completion; final value, output and the arguments received by host functions of arity 0-3 equal the hand model and the host's return value is what the program observes.",
+   "At every run_n_steps return of every explored execution: the number of VM instructions executed by the call (independent counter hook) is <= the budget and equals steps_consumed; for task-free programs the consumed steps sum to the default run's instruction count; completion or a runtime error is reported when main ends and persists on further calls, an error is never reported as completion; final value, output and the arguments received by host functions of arity 0-3 equal the hand model and the host's return value is what the program observes.",
    "Same bounds as C10; hand-computed expectations in corpus.rs are the reference model.",
    "DESIGN.md §3 C11"),
  "C09": ("model_checking",
    "multi-thread product BFS (round-robin mutator steps x collector micro-steps on every green thread's heap, quarantine on task teardown) against a FIFO/exactly-once/copy-at-write channel model",
-   "Sixteen producer/consumer programs covering scalar and heap payloads and every timing relation between write, read, task end, mutation after write and collection are first run without collection and compared with the channel model, then explored exhaustively over all interleavings of mutator steps with collector steps of every thread (1/2 cycles per thread) in quarantine mode; no reachable object (including through queues) may be reclaimed and every maximal path must give the model's outcome.",
+   "Sixteen producer/consumer programs covering scalar and heap payloads and every timing relation between write, read, task end, mutation after write and collection are first run without collection and compared with the channel model, then explored exhaustively over all interleavings of mutator steps with collector steps of every thread (1/2 cycles per thread) in quarantine mode; no reachable object (including through queues) may be reclaimed, every maximal path must give the model's outcome, and no state beyond the collection-disabled run's step count may be unfinished (a collector step never changes the mutator's course).",
    "Bounded programs and cycles; the scheduler is the real deterministic round-robin (budgets cannot reorder tasks), host-call delays are C10's job; hooks H3 trusted.",
    "DESIGN.md §3 C09"),
  "C07": ("model_checking",
@@ -27,7 +27,7 @@ CHECKS = {
    "DESIGN.md §3 C07"),
  "C06": ("model_checking",
    "explicit-state BFS over the product of the real mutator and the real incremental collector (per-object mark/sweep micro-steps), invariant checked in every state",
-   "For each program of a purpose-written family the search explores every interleaving of single VM instructions with single collector steps (start cycle, mark one grey object, sweep one object, per green thread, up to 2/3 cycles per thread) on the real VM in manual-GC + quarantine mode; an independent reachability walk must find no reclaimed reachable object in any state, no access may touch a reclaimed object, and every maximal path must produce the outcome of the collection-disabled run. Any real pacing is a coarsening of these micro-steps.",
+   "For each program (a purpose-written family, generated heap programs, and the move family: 6 store kinds x 4 ways of dropping the source reference x 2 declaration orders) the search explores every interleaving of single VM instructions with single collector steps (start cycle, mark one grey object, sweep one object, per green thread, up to 2/3 cycles per thread) on the real VM in manual-GC + quarantine mode; an independent reachability walk must find no reclaimed reachable object in any state, no access may touch a reclaimed object, and every maximal path must produce the outcome of the collection-disabled run. Any real pacing is a coarsening of these micro-steps.",
    "Bounded: the listed programs (20-130 instructions each) and 2/3 cycles per thread; hooks H3 (feature verif) are trusted to call the real start_mark_phase/process_gray/sweep and to quarantine instead of free; state merging on (mutator step count, collector fingerprint) is checked at every merge.",
    "DESIGN.md §3 C06"),
  "C15": ("exploration",
@@ -70,7 +70,7 @@ CHECKS.update({
           "identical output, emits, end kind and error traceback between the two builds, identical outcome across the operand forms of one (op, a, b), and agreement with the C15 integer model.",
           "Same bounds as C01/C02; S-jump known finding applies.", "DESIGN.md §3 C05", "translation_validation",
           "translation validation over an exhaustively enumerated program universe and operand grid: optimized vs unoptimized bytecode and literal vs variable operand forms must be observationally equal"),
- "C33": U("1,849 (quick) / ~16 k (thorough) erroneous programs obtained by every applicable single error mutation (undefined name, wrong-typed literal, deleted arm, assignment to let, dropped/added/unknown-named argument, unknown field, deleted token, bad escape) of corpus programs x 7 variants placing non-ASCII text before the site;",
+ "C33": U("1,849 (quick) / ~16 k (thorough) erroneous programs obtained by every applicable single error mutation (undefined name, wrong-typed literal, deleted arm, assignment to let, dropped/added/unknown-named argument, unknown field, deleted token, bad escape) of corpus programs x up to 10 variants placing non-ASCII text before the site (earlier lines, same line, inside the same string literal before the site, and as the escaped character itself);",
           "every diagnostic's primary range lies within the file, on UTF-8 character boundaries, covers the same characters as in the ASCII twin of the text (differential, no hand-written expectations), and intersects the mutated site where that is unambiguous.",
           "Secondary labels are only counted; texts on which analysis panics belong to C04.", "DESIGN.md §3 C33"),
  "C34": U("the C04 neighbourhood x EVERY byte offset 0..=len+1 (including offsets inside multi-byte characters) x {errors, definition_at, type_at, completions_at} on check_lsp;",
@@ -80,7 +80,7 @@ CHECKS.update({
           "deep copy at spawn: the task's view reflects only its own mutation, the spawner's view only its own; channels are shared.",
           "Tasks spawned at top level; nesting depth 2.", "DESIGN.md §3 C08", "model_checking",
           "enumeration of capture shapes x mutation patterns, each explored under all embedder schedules with a bounded number of deviations on the real runtime, against a copy-at-spawn model"),
- "C17": U("all 19x19 ordered pairs over a structured string set (empty, prefix/extension, first difference at first/middle/last byte of 40 bytes, NUL, multi-byte UTF-8), each evaluating `..` and the six comparisons in 3 (quick) / 5 (thorough) operand forms under uniform budgets 1,2,3,7,64,MAX; all embedder executions with <= 1 deviation; a collection cycle started at EVERY instruction boundary and completed 0,1 (quick) / 0,1,2,5,end (thorough) steps later;",
+ "C17": U("all 19x19 ordered pairs over a structured string set (empty, prefix/extension, first difference at first/middle/last byte of 40 bytes, NUL, multi-byte UTF-8), each evaluating `..` and the six comparisons, each followed by a different operation on a fixed prefix-related probe pair, in 3 (quick) / 5 (thorough) operand forms under uniform budgets 1,2,3,7,64,MAX; all embedder executions with <= 1 deviation; a collection cycle started at EVERY instruction boundary and completed 0,1 (quick) / 0,1,2,5,end (thorough) steps later;",
           "Rust byte-wise concatenation and lexicographic order; no reclaimed object reachable or touched in any state.",
           "Structured set instead of random strings; the full mutator x collector interleaving search for string temporaries is part of C06.", "DESIGN.md §3 C17", "model_checking",
           "exhaustive pairs x operand forms under enumerated budget schedules (uniform and deviation-bounded) and enumerated collection windows driven through the schedulable-collector hooks"),
@@ -133,13 +133,13 @@ CHECKS.update({
  "C28": U("all values of nested built-in types of depth <= 3 (int/bool/void/string/array/tuple 2-4/option/result, containers of size 0-2) rendered through `..` on both sides, .str(), ToString.str, print and println;",
           "model printer from the property statement (decimal ints, true/false, nil, verbatim strings, `[ a, b ]`, `(a, b)`, some(x)/none, ok(x)/err(e)).",
           "Floats not asserted; the empty array's spelling is only required to be consistent.", "DESIGN.md §3 C28"),
- "C30": U("integer literal spellings (boundary grid, every `_` placement, negated, leading zeros, 26 out-of-range spellings), float spellings (all I.F with <= 3/4 digits, round-half families of 17-20 digits, 300-400 digit strings), all strings of length <= 3 (quick) / 4 (thorough) over a 13-character menu in single, double and triple quotes, multi-line layouts;",
+ "C30": U("integer literal spellings (boundary grid, every `_` placement, negated, leading zeros, 26 out-of-range spellings), float spellings (all I.F with <= 3/4 digits, round-half families of 17-20 digits, 300-400 digit strings), all strings of length <= 3 (quick) / 4 (thorough) over a 13-character menu in single, double and triple quotes, multi-line layouts (every 1-3 content-line layout slice: indent x line menu x residue x closer);",
           "ints decimal; floats = correctly rounded binary64 (str::parse cross-checked by an exact-decimal bracket); strings byte-exact through the host; out-of-range literals give a diagnostic.",
           "Multi-line indentation rules are asserted only where the repository's own multiline_string tests pin them; other layouts assert only that no content character is lost.", "DESIGN.md §3 C30"),
  "C31": U("all typed expression trees of depth <= 3 over the 15 binary and 2 prefix operators with variable / literal / negative-literal leaves, printed with minimal parentheses for the documented table and round-tripped through a reference Pratt parser;",
           "value of the tree under a model evaluator using the documented precedence table and left associativity.",
-          "The stratum 'negative literal directly followed by % or ^' is an open known finding; a unary minus as right operand of a tighter operator followed by a tighter operator is unspecified.", "DESIGN.md §3 C31"),
- "C32": U("call chains of depth <= 2 (quick) / 3 (thorough) over named functions, methods and lambdas spread over three files, five failing operations placed at every statement position, with 0/1/5/40 non-ASCII characters (and 4-byte characters) above the site;",
+          "The stratum 'negative literal directly followed by % or ^' is an open known finding; a prefix minus on a non-literal operand groups by the documented table also when it is the right operand of a tighter operator (a * -b / c = a * (-(b / c))).", "DESIGN.md §3 C31"),
+ "C32": U("call chains of depth <= 2 (quick) / 3 (thorough) over named functions, methods and lambdas spread over three files, five failing operations placed at every statement position, with 0/1/5/40 non-ASCII characters (and 4-byte characters) above the site; plus the statement-layout family (the failing operation on its own line below `let v =` / `v =`, after a comment line, or inside a block initialiser);",
           "error kind, then file:line and function of the failing statement, then the call site of every active call, innermost first (the generator knows every line it emitted).",
           "For `!` on none one leading prelude frame is allowed.", "DESIGN.md §3 C32"),
  "C35": U("all nests of <= 2 (quick) / 3 (thorough) scopes (block, fn, lambda, match arm, for) x 1-2 names x every shadowing pattern, each binding initialised with a distinct constant and each use emitted; definition_at queried at every byte of every use; 82 hover programs;",
